@@ -18,7 +18,7 @@ fn applicable(f: &Fam, g: &GShape) -> bool {
     match f.body {
         "c01" => !g.rows.is_empty(),
         "c02" => b && !g.rows.is_empty(),
-        "c03" => b && g.sane && !g.rows.is_empty(),
+        "c03" => b && g.sane && g.rows.iter().any(|r| g.wits[r.w[0]].kind == 0),
         "c06" => true,
         "c06_d" => g.ty.d && !g.rows.is_empty(),
         "c07" => b && g.liftable && !g.rows.is_empty(),
